@@ -249,10 +249,21 @@ impl Channel {
 
         chan.busy = false;
         chan.transmission_finish_time = SimTime::ZERO;
+        drop(chan);
 
-        if let Some((msg, next_gate)) = chan.buffer.dequeue() {
+        // Restart the transmission of queued messages. A message whose transmission
+        // time is zero does not occupy the channel (no further unbusy notification
+        // will arrive for it), so continue until the channel is busy again.
+        loop {
+            let mut chan = self.inner.write().unwrap();
+            if chan.busy {
+                break;
+            }
+            let Some((msg, next_gate)) = chan.buffer.dequeue() else {
+                break;
+            };
             drop(chan);
-            self.send_message(msg, next_gate, sink);
+            self.clone().send_message(msg, next_gate, sink);
         }
     }
 }
